@@ -127,62 +127,98 @@ def r06_1(ctx):
               found="; ".join(ast.unparse(r.value) for r in rets), fi=fg)
 
 
+def sym_rational(v, env):
+    """exact value (Fraction) of a simulated arithmetic expression over named tokens; None if it contains anything else"""
+    from fractions import Fraction
+    from ..layout import Sym
+    if isinstance(v, bool):
+        return None
+    if isinstance(v, int):
+        return Fraction(v)
+    if isinstance(v, float):
+        return Fraction(v).limit_denominator(10 ** 9)
+    if isinstance(v, Sym):
+        if v.op in env:
+            return env[v.op]
+        if v.op == "binop":
+            a, b = sym_rational(v.args[1], env), sym_rational(v.args[2], env)
+            if a is None or b is None:
+                return None
+            o = v.args[0]
+            if o == "Add": return a + b
+            if o == "Sub": return a - b
+            if o == "Mult": return a * b
+            if o == "Div": return a / b if b != 0 else None
+            if o == "Pow" and b.denominator == 1: return a ** int(b)
+        if v.op == "unop" and v.args and v.args[0] == "USub":
+            a = sym_rational(v.args[1], env)
+            return -a if a is not None else None
+    return None
+
+
 def check_geometric_normalized(ctx, g):
-    ng = ctx.norm(g)
-    NN = g.params[1]
-    ret = [r for r in walk_no_nested(g.node) if isinstance(r, ast.Return) and r.value is not None]
-    name = ret[0].value.id if ret and isinstance(ret[0].value, ast.Name) else None
-    comp_norm = None   # the normalisation written as a comprehension in the return: [v/vec[-1] for v in vec] / [vec[i]/vec[-1] for i in range(N+1)]
-    if ret and isinstance(ret[0].value, ast.ListComp) and len(ret[0].value.generators) == 1 and not ret[0].value.generators[0].ifs:
-        gen = ret[0].value.generators[0]
-        if isinstance(gen.target, ast.Name):
-            v = gen.target.id
-            if isinstance(gen.iter, ast.Name):
-                name = gen.iter.id
-                comp_norm = Norm(None).poly(ret[0].value.elt) == Norm(None).poly(ast.parse("%s/%s[-1]" % (v, name), mode="eval").body)
-            else:
-                subs = {ast.unparse(x.value) for x in ast.walk(ret[0].value.elt) if isinstance(x, ast.Subscript) and isinstance(x.value, ast.Name)}
-                if len(subs) == 1:
-                    name = subs.pop()
-                    rb = ng.poly(gen.iter.args[0]) if isinstance(gen.iter, ast.Call) and ast.unparse(gen.iter.func) == "range" and len(gen.iter.args) == 1 else None
-                    comp_norm = rb == Poly.atom(NN) + 1 and Norm(None).poly(ret[0].value.elt) == Norm(None).poly(ast.parse("%s[%s]/%s[-1]" % (name, v, name), mode="eval").body)
-    init = [s for s in g.node.body if isinstance(s, ast.Assign) and isinstance(s.targets[0], ast.Name) and s.targets[0].id == name]
-    ok0 = bool(init) and isinstance(init[0].value, ast.List) and len(init[0].value.elts) == 1 and ng.poly(init[0].value.elts[0]) == Poly.const(0)
-    ctx.check(ok0, "GeometricGrid.normalized starts at 0", detail="first normalised point is not 0", expected="%s = [0]" % name,
-              found=ast.unparse(init[0]) if init else "no initialisation", fi=g)
-    loops = [s for s in g.node.body if isinstance(s, ast.For)]
-    grow = [l for l in loops if any(is_call_to(c, "append", name) for c in ast.walk(l))]
-    okg = False
-    for l in grow:
-        it = ng.poly(l.iter.args[0]) if isinstance(l.iter, ast.Call) and l.iter.args else None
-        apps = [c for c in ast.walk(l) if is_call_to(c, "append", name)]
-        if it == Poly.atom(NN) and len(apps) == 1:
-            a = apps[0].args[0]
-            # cumulative sum: previous last element plus the running interval length
-            pa = Norm(None).poly(a)
-            okg = ("%s[-1]" % name) in pa.atoms() and pa.coeff("%s[-1]" % name) == Poly.const(1)
-    ctx.check(okg, "GeometricGrid.normalized accumulates N interval lengths", detail="grid is not the cumulative sum of N intervals",
-              expected="for i in range(N): vec.append(vec[-1]+base)", found="; ".join(ast.unparse(l.iter) for l in grow) or "no loop", fi=g)
-    norml = []
-    for l in loops:
-        for s in l.body:
-            if isinstance(s, ast.Assign) and isinstance(s.targets[0], ast.Subscript) and ast.unparse(s.targets[0].value) == name:
-                norml.append((l, s))
-    okn = False
-    for l, s in norml:
-        it = ng.poly(l.iter.args[0]) if isinstance(l.iter, ast.Call) and l.iter.args else None
-        i = l.target.id if isinstance(l.target, ast.Name) else None
-        want = Norm(None).poly(ast.parse("%s[%s]/%s[-1]" % (name, i, name), mode="eval").body)
-        okn = it == Poly.atom(NN) + 1 and ast.unparse(s.targets[0].slice) == i and Norm(None).poly(s.value) == want
-    if comp_norm is not None and not norml:
-        okn = comp_norm
-    ctx.check(okn, "GeometricGrid.normalized ends at 1", detail="points are not divided by the last point",
-              expected="for i in range(N+1): vec[i] = vec[i]/vec[-1]", found="; ".join(ast.unparse(s) for _, s in norml) or "no normalisation loop", fi=g)
-    # growth: the running length is multiplied by the growth factor once per interval
-    mul = [s for l in grow for s in l.body if isinstance(s, ast.AugAssign) and isinstance(s.op, ast.Mult)]
-    okm = len(mul) == 1 and ng.key(mul[0].value) == ng.key(ast.parse("self.growth_factor(%s)" % NN, mode="eval").body)
-    ctx.check(okm, "GeometricGrid.normalized constant ratio", detail="consecutive intervals not in constant ratio growth_factor(N)",
-              expected="base *= self.growth_factor(N) once per interval", found="; ".join(ast.unparse(s) for s in mul) or "none", fi=g)
+    """GeometricGrid.normalized is *run* for N = 1..4 with the growth factor as a token g; the returned points must be the cumulative
+    sums of 1, g, g^2, .. divided by the total, as rational functions of g (compared exactly at 12 rational values of g: more than
+    the degree of the cross-multiplied identity) - whatever loop, comprehension or itertools pipeline computes them."""
+    from fractions import Fraction
+    from ..sim import Sim, fresh_obj
+    from ..layout import Sym, LayoutUnknown
+    P = ctx.prog
+    points = [Fraction(a, b) for a, b in ((2, 1), (3, 1), (1, 2), (5, 3), (7, 2), (1, 3), (4, 1), (9, 5), (2, 3), (11, 4), (6, 5), (13, 7))]
+    verdict = {"first": True, "count": True, "last": True, "ratio": True}
+    found = []
+    for N in (1, 2, 3, 4):
+        try:
+            out = Sim(P, hooks={".growth_factor": lambda s_, r, a, k, n: Sym("g")}).call(g, [fresh_obj("self"), N], {})
+        except LayoutUnknown as e:
+            raise AnalysisError("GeometricGrid.normalized could not be simulated: %s" % e)
+        if not isinstance(out, (list, tuple)):
+            raise AnalysisError("GeometricGrid.normalized: simulated result is not a list")
+        out = list(out)
+        if len(out) != N + 1:
+            verdict["count"] = False
+            found.append("N=%d: %d points" % (N, len(out)))
+            continue
+        for gv in points:
+            vals = [sym_rational(v, {"g": gv}) for v in out]
+            if any(v is None for v in vals):
+                raise AnalysisError("GeometricGrid.normalized: a returned point is not an arithmetic expression of the growth factor")
+            total = sum(gv ** j for j in range(N))
+            want = [sum(gv ** j for j in range(i)) / total for i in range(N + 1)]
+            if vals[0] != 0:
+                verdict["first"] = False
+            if vals[-1] != 1:
+                verdict["last"] = False
+            if vals != want:
+                verdict["ratio"] = False
+                found.append("N=%d g=%s: %s" % (N, gv, [str(v) for v in vals]))
+                break
+    # the normalised grid is a function of N and the constructor's configuration only: nothing is remembered between calls (a cache
+    # keyed by N alone, shared through the class, hands one grid's points to another grid with a different growth factor)
+    for cname in sorted(ctx.prog.subclasses("Grid")):
+        nm = ctx.prog.cls(cname).methods.get("normalized")
+        if nm is None:
+            continue
+        me = nm.params[0]
+        stores = [x for x in ast.walk(nm.node) if isinstance(x, (ast.Attribute, ast.Subscript)) and isinstance(x.ctx, (ast.Store, ast.Del)) and ast.unparse(x).startswith(me + ".")]
+        muts = [c for c in ast.walk(nm.node) if isinstance(c, ast.Call) and isinstance(c.func, ast.Attribute) and ast.unparse(c.func.value).startswith(me + ".")
+                and c.func.attr in ("append", "extend", "update", "setdefault", "pop", "clear", "insert", "__setitem__")]
+        # a memo kept on the instance (created by its constructor) is private to one configuration: allowed
+        per_instance = set()
+        for k in ctx.prog.mro(cname):
+            ini = k.methods.get("__init__")
+            if ini is not None:
+                per_instance |= {t.attr for st in ast.walk(ini.node) if isinstance(st, ast.Assign) for t in st.targets if isinstance(t, ast.Attribute) and ast.unparse(t.value) == ini.params[0]}
+        root_attr = lambda x: ast.unparse(x).split(".")[1].split("[")[0].split("(")[0]
+        stores = [x for x in stores if root_attr(x) not in per_instance]
+        muts = [c for c in muts if root_attr(c.func.value) not in per_instance]
+        ctx.check(not stores and not muts, "%s.normalized keeps no state between calls" % cname, detail="normalised grid remembered across calls / instances (stale points for another configuration)",
+                  expected="no write to self.* in normalized() other than to a memo the constructor created for this instance", found="; ".join(ast.unparse(x)[:60] for x in stores + muts), fi=nm)
+    ctx.check(verdict["first"], "GeometricGrid.normalized starts at 0", detail="first normalised point is not 0", expected="0", found="; ".join(found[:2]), fi=g)
+    ctx.check(verdict["count"], "GeometricGrid.normalized accumulates N interval lengths", detail="grid is not the cumulative sum of N intervals", expected="N+1 points", found="; ".join(found[:2]), fi=g)
+    ctx.check(verdict["last"], "GeometricGrid.normalized ends at 1", detail="points are not divided by the last point", expected="1", found="; ".join(found[:2]), fi=g)
+    ctx.check(verdict["ratio"] and verdict["count"], "GeometricGrid.normalized constant ratio", detail="consecutive intervals not in constant ratio growth_factor(N)",
+              expected="point i = (1 + g + .. + g^(i-1)) / (1 + g + .. + g^(N-1))", found="; ".join(found[:2]), fi=g)
     gf = ctx.prog.own_method("GeometricGrid", "growth_factor")
     ngf = ctx.norm(gf)
     rets = [r for r in walk_no_nested(gf.node) if isinstance(r, ast.Return)]
